@@ -124,6 +124,7 @@ def register(reg):
     _register_write2(reg)
     _register_api_write(reg)
     _register_squash(reg)
+    _register_prune(reg)
 
 
 def _register_nodes(reg):
@@ -1139,3 +1140,65 @@ def _register_squash(reg):
     reg.add("hexary_squash", Contract(H + "squash_changes", ["self"], squash_cases, setup=squash_setup,
                                       body_model=squash_body_model, props=("C05", "C04", "C06"),
                                       inline={"trie.utils.db:ScratchDB.__init__"}))
+
+
+# ---------------------------------------------------------------------------------------------------
+# _complete_pruning (C06): apply the pending prunes -- a loop over a dictionary
+
+def cp_setup(E):
+    t = HM.mk_trie(E, pruning=True)
+    t.fields["db"].hooks = None          # this unit only deletes; the content-addressing hooks concern writes
+    pend = E.fresh_dict("pending", "bytes", "int", default=0)
+    t.fields["_pending_prune_keys"] = pend
+    k = z3.Const("k!pos", SeqI)
+    E.assume(mk_bool(z3.ForAll([k], z3.Implies(z3.Select(pend.has, k), z3.Select(pend.val, k) >= 1),
+                               patterns=[z3.Select(pend.val, k)])))
+    E.ghost["cp0"] = (t.fields["db"].has, t.fields["db"].val, t.fields["_ref_count"].has, t.fields["_ref_count"].val)
+    return {"self": t}
+
+
+def _cp_state(dbh, dbv, rch, rcv, db0h, db0v, rc0h, rc0v, ph, pv, done, k):
+    """at key k: processed keys have their count lowered (entry and node dropped when it reaches zero), the others
+    are untouched"""
+    old = z3.If(z3.Select(rc0h, k), z3.Select(rc0v, k), 0)
+    c = old - z3.Select(pv, k)
+    proc = z3.Select(done, k)
+    return z3.And(
+        z3.Implies(z3.And(proc, c <= 0), z3.And(z3.Not(z3.Select(dbh, k)), z3.Not(z3.Select(rch, k)))),
+        z3.Implies(z3.And(proc, c > 0), z3.And(z3.Select(rch, k), z3.Select(rcv, k) == c,
+                                               z3.Select(dbh, k) == z3.Select(db0h, k), z3.Select(dbv, k) == z3.Select(db0v, k))),
+        z3.Implies(z3.Not(proc), z3.And(z3.Select(dbh, k) == z3.Select(db0h, k), z3.Select(dbv, k) == z3.Select(db0v, k),
+                                         z3.Or(z3.And(z3.Select(rch, k) == z3.Select(rc0h, k),
+                                                      z3.Implies(z3.Select(rc0h, k), z3.Select(rcv, k) == z3.Select(rc0v, k))),
+                                               False))))
+
+
+def cp_inv(E, fr, done):
+    s = fr.locals["self"]
+    db, rc, pend = s.fields["db"], s.fields["_ref_count"], s.fields["_pending_prune_keys"]
+    db0h, db0v, rc0h, rc0v = E.ghost["cp0"]
+    k = z3.Const("k!cpinv", SeqI)
+    body = _cp_state(db.has, db.val, rc.has, rc.val, db0h, db0v, rc0h, rc0v, pend.has, pend.val, done, k)
+    return [("per-key-state", mk_bool(z3.ForAll([k], body)))]
+
+
+def cp_cases(E, ctx):
+    s = ctx.self
+    db, rc, pend = s.fields["db"], s.fields["_ref_count"], s.fields["_pending_prune_keys"]
+    db0h, db0v, rc0h, rc0v = E.ghost["cp0"]
+    k = z3.Const("k!cppost", SeqI)
+
+    def post():
+        body = _cp_state(db.has, db.val, rc.has, rc.val, db0h, db0v, rc0h, rc0v, pend.has, pend.val, pend.has, k)
+        return [("every-pending-prune-applied-exactly", mk_bool(z3.ForAll([k], body)))]
+    return [Case("pruned", returns=lambda: None, post=post, modifies=[db, rc]),
+            Case("node-to-prune-is-missing", raises=objs.exc(E, "ValidationError"), modifies=[db, rc])]
+
+
+def _register_prune(reg):
+    H = HEX + ":HexaryTrie."
+    reg.add("hexary_prune", Contract(H + "_complete_pruning", ["self"], cp_cases, setup=cp_setup, props=("C06", "C04"),
+                                     loops={0: LoopSpec(cp_inv, havoc=lambda fr: [fr.locals["self"].fields["db"],
+                                                                                  fr.locals["self"].fields["_ref_count"]],
+                                                        fresh={"new_count": "unbound", "exc": "unbound"})},
+                                     callee=False))
